@@ -65,7 +65,15 @@ func Main() {
 		defer pprof.StopCPUProfile()
 	}
 	r := NewReport(&job)
+	ConformanceBudget = 15
+	if job.Tier != "quick" {
+		ConformanceBudget = 320
+	}
 	f(&job, r)
+	if conformanceStats.traces > 0 {
+		r.Count("memfs_traces_replayed_on_os", conformanceStats.traces)
+		r.Count("memfs_calls_replayed_on_os", conformanceStats.calls)
+	}
 	r.Write()
 }
 
